@@ -80,8 +80,11 @@ func (d *PathDecoder) CollectReferenceOrigins() (reference.Origins, error) {
 
 		os, ios := d.referenceOriginsInBody(f.Body, d.pathCtx.Schema)
 		refOrigins = append(refOrigins, os...)
-		impliedOrigins = append(impliedOrigins, ios...)
+		// the implied origins of the root body schema itself come first
+		// and are the same for every file: they are taken once (below)
+		impliedOrigins = append(impliedOrigins, ios[len(d.pathCtx.Schema.ImpliedOrigins):]...)
 	}
+	impliedOrigins = append(impliedOrigins, d.pathCtx.Schema.ImpliedOrigins...)
 
 	for _, impliedOrigin := range impliedOrigins {
 		for _, origin := range refOrigins {
